@@ -115,6 +115,12 @@ class Bench:
         refused = t.done() and not t.cancelled() and isinstance(t.exception(), core.APIConnectionError) and \
             "Already connected" in str(t.exception())
         self.last = "alreadyConnected" if refused else "ok"
+        if not refused and before is not None and before.connection_state is not ac.CONNECTION_STATE_CLOSED:
+            # "... and refuses with 'already connected' otherwise": an attempt whose connection has not been closed is in
+            # progress (or a session is alive) - a second attempt on top of it must not be accepted
+            self.bad.append(("accepted-on-top", f"start_connection was accepted although the client's connection is in state "
+                                                f"{STATE[before.connection_state]} (an attempt in progress / a live session): the earlier "
+                                                "connection is replaced without being closed"))
         if not refused:
             self.start_task = t
             self.start_conn = self.client._connection
